@@ -12,7 +12,7 @@ import amcdriver as D
 QUICK = [('17', 'O2', 'ndebug', 'extras'), ('11', 'O0', 'assert', 'plain'), ('14', 'O2', 'assert', 'extras'), ('20', 'O0', 'ndebug', 'plain'),
          ('11', 'O2', 'ndebug', 'extras'), ('20', 'O2', 'assert', 'extras')]
 ALL = list(itertools.product(['11', '14', '17', '20'], ['O0', 'O2'], ['ndebug', 'assert'], ['extras', 'plain']))
-RULE = ('the portable profile (13 vector and 3 FlatSet configurations in every build, 2 SmallSet configurations from C++17 on) executes the same seeds in '
+RULE = ('the portable profile (15 vector and 3 FlatSet configurations in every build, 2 SmallSet configurations from C++17 on) executes the same seeds in '
         'every build of the matrix {c++11,14,17,20} x {-O0,-O2} x {NDEBUG, assertions} x {AMC_NONSTD_FEATURES on, off}; an evaluation is one '
         '(build, configuration, seed, operation mask) script execution of 10-60 operations; distinct_nontrivial counts distinct transcript hashes '
         '(one per (configuration, seed, mask) when all builds agree)')
